@@ -37,7 +37,8 @@
  *   dfgetlablen ttag tref / dfgetdesclen ..      DFANgetlablen / DFANgetdesclen        -> ok len | fail
  *   dfaddfid hex / dfaddfds hex   Hopen, DFANaddfid / DFANaddfds, DFANlastref, Hclose  -> ok ref | fail
  *   dfgetfids / dfgetfdss      Hopen, loop DFANgetfidlen+DFANgetfid(isfirst) .., Hclose -> ok n hex.. | fail
- *   dflablist tag maxlen       DFANlablist(listsize 8, startpos 1)                     -> ok n ref.. hex.. | fail
+ *   dflablist tag maxlen [listsize startpos]   DFANlablist (default listsize 8, startpos 1)  -> ok n ref.. hex.. | fail
+ *   restart                    ANend + ANstart on the same open file id (+ DFANclear)  -> ok | fail
  */
 #include <stdio.h>
 #include <stdlib.h>
@@ -142,6 +143,17 @@ static void run_history(const char *dir, long hno, char **lines, long *lnos, lon
             if (fid == FAIL) {
                 fid = Hopen(fname, DFACC_RDWR, 0);
                 if (fid != FAIL) { anid = ANstart(fid); ok = anid != FAIL; }
+            }
+            printf(ok ? " ok\n" : " fail\n");
+        }
+        else if (!strcmp(op, "restart")) {      /* ANend, then ANstart on the same open file id */
+            int ok = 0;
+            if (fid != FAIL) {
+                ok = ANend(anid) != FAIL;
+                DFANclear();
+                for (int i = 0; i < NS; i++) ids[i] = FAIL;
+                anid = ANstart(fid);
+                if (anid == FAIL) ok = 0;
             }
             printf(ok ? " ok\n" : " fail\n");
         }
@@ -362,11 +374,12 @@ static void run_history(const char *dir, long hno, char **lines, long *lnos, lon
             if (bad) printf(" bad %d\n", bad); else printf(" ok %d%s\n", n, out);
         }
         else if (!strcmp(op, "dflablist")) {
-            sscanf(line, "%*s %ld %ld", &a, &b);
-            int listsize = 8;
+            long ls = 8, sp = 1;
+            sscanf(line, "%*s %ld %ld %ld %ld", &a, &b, &ls, &sp);
+            int listsize = (int)ls;
             uint16 *refl = (uint16 *)fresh(listsize * sizeof(uint16));
             unsigned char *labs = fresh(listsize * b);
-            int n = DFANlablist(fname, (uint16)a, refl, (char *)labs, listsize, (int)b, 1);
+            int n = DFANlablist(fname, (uint16)a, refl, (char *)labs, listsize, (int)b, (int)sp);
             if (n == FAIL) printf(" fail\n");
             else {
                 printf(" ok %d", n);
